@@ -52,6 +52,17 @@ impl<OT: OtReceiver<Msg = Block> + SemiHonest> FixedKeyInitializer for Sender<OT
         let mut ot = OT::init(channel, rng, p_to, shared_rand).await?;
         let s = u8vec_to_boolvec(&s_);
         let ks = ot.recv(channel, &s, rng, p_to, shared_rand).await?;
+        #[cfg(feature = "__verif")]
+        crate::verif::probe_vec(
+            "alsz_sender_seeds",
+            std::iter::once(p_to as u64).chain(ks.iter().flat_map(|k| {
+                let b: [u8; 16] = (*k).into();
+                [
+                    u64::from_le_bytes(b[..8].try_into().unwrap()),
+                    u64::from_le_bytes(b[8..].try_into().unwrap()),
+                ]
+            })),
+        );
         let rngs = ks
             .into_iter()
             .map(AesRng::from_seed)
